@@ -2,34 +2,22 @@ package schema
 
 import (
 	"fmt"
-	"strings"
 	"testing"
 
 	"pgregory.net/rapid"
 )
 
 func TestZZCount(t *testing.T) {
-	avoid := map[string]string{"annotated_nested": "KF", "enum_value_custom": "KF", "flatten_in_requests": "KF", "child_encoding_json": "k", "unwrap_scalar_json": "k", "enum_number": "k"}
-	prof := ProfileContract(avoid)
-	nested, ts := 0, 0
-	for i := 0; i < 48; i++ {
-		id := fmt.Sprintf("y%04d", i)
-		s := rapid.Custom(func(t *rapid.T) *Schema { return Generate(t, prof, id) }).Example(i + 1000)
-		for _, f := range s.Files {
-			for _, m := range f.Messages {
-				for _, n := range m.Nested {
-					if strings.HasSuffix(n.Name, "Response") {
-						nested++
-						for _, fl := range n.Fields {
-							if fl.Ann != nil && fl.Ann.TimestampFormat != 0 {
-								ts++
-								fmt.Println(id, m.Name, n.Name, fl.Name, fl.Ann.TimestampFormat, fl.Card)
-							}
-						}
-					}
-				}
-			}
+	avoid := map[string]string{"multi_feature": "k"}
+	prof := ProfileFull(avoid)
+	tags := map[string]int{}
+	for i := 0; i < 150; i++ {
+		s := rapid.Custom(func(t *rapid.T) *Schema { return Generate(t, prof, "c0001") }).Example(i + 1000)
+		for _, tg := range s.Tags {
+			tags[tg]++
 		}
 	}
-	fmt.Println("nested responses", nested, "with ts", ts)
+	for _, k := range []string{"enum_value", "enum_value:hostile_text", "enum_value_field", "feat:enum_value"} {
+		fmt.Println(k, tags[k])
+	}
 }
